@@ -49,6 +49,8 @@ def check_call(c, m, call, hist, before=None, float_heights=False):
     case = {'kind': 'history', 'bibs': list(m.order), 'calls': [enc(x) for x in hist] + [enc(call)]}
     if float_heights:
         case['float_heights'] = True
+    if hjimpl.VIA_TRIAL:
+        case['via_trial'] = True
     if r[0] == 'refused':
         if r[1] != 'RuleViolation':
             out.append(V('refusal-raises-RuleViolation', ['refusal-type', r[1], op], case, r))
@@ -101,6 +103,8 @@ def universal_call(c, call, hist_calls, bibs, float_heights=False):
     case = {'kind': 'history', 'bibs': list(bibs), 'calls': [enc(x) for x in hist_calls] + [enc(call)]}
     if float_heights:
         case['float_heights'] = True
+    if hjimpl.VIA_TRIAL:
+        case['via_trial'] = True
     out = []
     if r[0] == 'refused':
         if r[1] != 'RuleViolation':
@@ -114,6 +118,8 @@ def universal_call(c, call, hist_calls, bibs, float_heights=False):
         out.append(V('stage-only-moves-forward', ['stage-regressed', stage0, c.state], case, [stage0, c.state]))
     if lvl0 == 3:
         out.append(V('nothing-after-finished-or-drawn', ['accepted-when-decided', op, stage0], case, c.state))
+    if op == 'badtrial':
+        out.append(V('accepted-exactly-when-allowed', ['wrongly-accepted', op, stage0, 'unknown trial letter'], case, 'accepted', 'RuleViolation'))
     if op.split(':')[0] == 'add' and stage0 != 'scheduled':
         out.append(V('accepted-exactly-when-allowed', ['wrongly-accepted', op, stage0, 'athletes join only before the first height'],
                      case, 'accepted', 'RuleViolation'))
@@ -199,6 +205,8 @@ def alphabet(c, m, max_reg, max_total):
             calls.append((op, b))
     calls.append(('add', 999 if isinstance(m.order[0], int) else 'Z'))      # a new bib of the competition's own kind
     calls.append(('add', m.order[0]))
+    if hjimpl.VIA_TRIAL:
+        calls.append(('badtrial', m.order[0]))
     if m.stage != 'scheduled':
         # a late entry carrying the optional keywords of a start-list entry is a late entry all the same
         for v in ('DNS', 'DQ', 'full'):
@@ -208,6 +216,15 @@ def alphabet(c, m, max_reg, max_total):
 
 def replay(case, on_state=None):
     """Re-execute a stored history from scratch; returns all violations met (plain calls, no generator)."""
+    keep = hjimpl.VIA_TRIAL
+    hjimpl.VIA_TRIAL = bool(case.get('via_trial'))
+    try:
+        return _replay(case, on_state)
+    finally:
+        hjimpl.VIA_TRIAL = keep
+
+
+def _replay(case, on_state=None):
     c, m, hist = start(case['bibs'])
     out = []
     fh = bool(case.get('float_heights'))
